@@ -65,6 +65,13 @@ def matches_known(v, known):
             import re
             if re.search(k["what_fails_regex"], v.get("what_fails") or ""):
                 return k
+        if k.get("joint_regex"):
+            # over "<what fails> || <input>": the finding is identified by a relation between
+            # the failing step and the history that led to it
+            import re
+            if re.search(k["joint_regex"], f"{v.get('what_fails') or ''} || {v.get('input') or ''}",
+                         re.S):
+                return k
     return None
 
 
